@@ -1,6 +1,7 @@
 SPECIFICATION MCSpec
 CONSTANTS
   Task = {1,2,3}
+  Deviations = {}
 INVARIANT StacksDisjoint
 PROPERTY FrameCondition
 CHECK_DEADLOCK FALSE
